@@ -1,0 +1,32 @@
+//go:build verif
+
+package io
+
+import "io"
+
+// Verification hooks, compiled in only with the "verif" build tag. They let an external monitor
+// observe (and, for fault injection, replace) every write issued through OffsetWriteSeeker and
+// observe the file mutations that bypass it (direct WriteAt of the pragma, Truncate on resume).
+
+// VerifWriteHook, when set, is called before every OffsetWriteSeeker.Write with the underlying
+// writer, the absolute offset and the bytes. If it returns handled=true the write is considered
+// done by the hook, with n and err as the result.
+var VerifWriteHook func(w io.WriterAt, off int64, b []byte) (n int, err error, handled bool)
+
+// VerifTraceHook, when set, is called before a mutation that does not go through
+// OffsetWriteSeeker: kind is "writeat" (off, b) or "truncate" (off is the new size).
+var VerifTraceHook func(w any, kind string, off int64, b []byte)
+
+func verifBeforeWrite(w io.WriterAt, off int64, b []byte) (int, error, bool) {
+	if h := VerifWriteHook; h != nil {
+		return h(w, off, b)
+	}
+	return 0, nil, false
+}
+
+// VerifTrace reports a mutation that bypasses OffsetWriteSeeker.
+func VerifTrace(w any, kind string, off int64, b []byte) {
+	if h := VerifTraceHook; h != nil {
+		h(w, kind, off, b)
+	}
+}
